@@ -91,16 +91,30 @@ def exotic_eval_shape(fi):
     return None
 
 
+class GuardedRun:
+    """a Run whose violations become "no verdict" when the analysed function uses constructs the trace rules cannot read reliably:
+    what the rules recognise is still reported as ok, but a deviation is only reported for a shape they can read"""
+
+    def __init__(self, run, fi):
+        self._run, self._why = run, exotic_eval_shape(fi)
+
+    def __getattr__(self, name):
+        return getattr(self._run, name)
+
+    def violation(self, *a, **k):
+        if self._why:
+            raise AnalysisError('EvalNode.on_evaluate_impl: %s - shape not recognised by the trace rules' % self._why)
+        return self._run.violation(*a, **k)
+
+
 def _eval_paths(repo, exc=False):
     fi = repo.func('EvalNode.ayns.on_evaluate_impl')
-    why = exotic_eval_shape(fi)
-    if why:
-        raise AnalysisError('EvalNode.on_evaluate_impl: %s - shape not recognised by the trace rules' % why)
     return fi, tr.paths_of(repo, fi, no_inline=ENI, follow_exceptions=exc)
 
 
 def r1b(repo, run):
     fi, paths = _eval_paths(repo)
+    run = GuardedRun(run, fi)
     n_run = n_cache = 0
     verdicts = set()
     for p in paths:
@@ -243,6 +257,7 @@ def r2(repo, run):
 
 def r3(repo, run):
     fi, paths = _eval_paths(repo, exc=True)
+    run = GuardedRun(run, fi)
     sinks = {}
     for p in paths:
         for e in p.events:
@@ -279,6 +294,7 @@ def r3(repo, run):
 
 def r4(repo, run):
     fi, paths = _eval_paths(repo)
+    run = GuardedRun(run, fi)
     n = 0
     verdicts = {}
     for p in paths:
